@@ -77,6 +77,9 @@ def run(repo: Repo, chk: Check):
     chk.rule("R11.c", "attribute stores on device/structure objects outside __init__ hit only fresh copies or the audited sites", floor=6)
     chk.rule("R11.d", "no container that came in through a parameter or from a compile-time constant (cached constexpr "
                       "results) is mutated in place", floor=20)
+    chk.rule("R11.e", "no loop on the compile path iterates a set of names in hash order while its body depends on the order: the string "
+                      "hash seed differs between processes, so the result would differ from a fresh process", floor=3)
+    chk.guarded(r11e, repo, chk)
     inventory(repo, chk)
     r11b(repo, chk)
     r11cd(repo, chk)
@@ -148,7 +151,7 @@ def inventory(repo, chk):
     if ("utils", "_output_mode") in written:
         writers = {s[0] for s in written[("utils", "_output_mode")]}
         chk.judge("R11.a", "utils:_output_mode:single setter", writers == {"set_output_mode"}, f"_output_mode is written by {sorted(writers)}", None, str(u.path))
-        fn = cm.func("compile_code")
+        fn = cm.anchor("compile_code")
         cfg = CFG(fn)
         live = cfg.reachable()
         setters = [n for n in cfg.nodes if n.id in live and n.ast is not None and n.kind == "stmt" and any(
@@ -213,7 +216,7 @@ def inventory(repo, chk):
 
 
 def cache_obligation(repo, chk, u):
-    fn = u.func("eval_constexpr")
+    fn = u.anchor("eval_constexpr")
     chk.saw("utils", "eval_constexpr")
     cfg = CFG(fn)
     rd = ReachingDefs(cfg)
@@ -381,3 +384,90 @@ def r11cd(repo, chk):
 def is_fresh_or_percompile_name(nm, rd, nid):
     ds = rd.at(nid, nm.id)
     return bool(ds) and all(d.kind == "assign" and d.value is not None and (is_fresh_expr(d.value, rd, d.node) or per_compile_root(d.value)) for d in ds)
+
+
+# ---------------------------------------------------------------------- R11.e
+def _set_typed(e, rd, nid, depth=0):
+    """Is *e* statically a set (of names)?"""
+    if depth > 4:
+        return False
+    if isinstance(e, (ast.Set, ast.SetComp)):
+        return True
+    if isinstance(e, ast.Call):
+        f = norm(e.func)
+        if f in ("set", "frozenset"):
+            # a set of small integers iterates in value order; sets built from range()/ints are exempt
+            return not (e.args and ("range(" in norm(e.args[0]) or "registers" in norm(e.args[0])))
+        if isinstance(e.func, ast.Attribute) and e.func.attr in ("copy", "union", "difference", "intersection", "symmetric_difference"):
+            return _set_typed(e.func.value, rd, nid, depth + 1)
+        if isinstance(e.func, ast.Attribute) and e.func.attr == "get" and len(e.args) == 2:
+            return _set_typed(e.args[1], rd, nid, depth + 1)
+        return False
+    if isinstance(e, ast.BinOp) and isinstance(e.op, (ast.Sub, ast.BitOr, ast.BitAnd, ast.BitXor)):
+        return _set_typed(e.left, rd, nid, depth + 1) or _set_typed(e.right, rd, nid, depth + 1)
+    if isinstance(e, ast.Name) and rd is not None:
+        ds = rd.at(nid, e.id)
+        return bool(ds) and all(d.kind == "assign" and d.value is not None and not d.index and _set_typed(d.value, rd, d.node, depth + 1) for d in ds)
+    return False
+
+
+def _order_insensitive(loop):
+    """The loop body only accumulates into sets / does per-element updates that commute."""
+    for st in ast.walk(ast.Module(body=loop.body, type_ignores=[])):
+        if isinstance(st, (ast.Break, ast.Return)):
+            return False
+        if isinstance(st, ast.Call) and isinstance(st.func, ast.Attribute) and st.func.attr in ("append", "insert", "extend", "pop", "popitem"):
+            return False
+    # assignments that carry state from one iteration to the next:  x = f(x) with x not the loop's own element
+    tgt = {n.id for n in ast.walk(loop.target) if isinstance(n, ast.Name)}
+    for st in loop.body:
+        for a in ast.walk(st):
+            if isinstance(a, ast.Assign):
+                for t in a.targets:
+                    base = t
+                    while isinstance(base, (ast.Subscript, ast.Attribute)):
+                        base = base.value
+                    if isinstance(t, ast.Subscript) and isinstance(base, ast.Name):
+                        # d[elem] = <state carried across iterations>  (e.g. called_from[module] = added.copy())
+                        used = {n.id for n in ast.walk(a.value) if isinstance(n, ast.Name)}
+                        mutated = {norm(c.func.value) for c in ast.walk(ast.Module(body=loop.body, type_ignores=[])) if isinstance(c, ast.Call)
+                                   and isinstance(c.func, ast.Attribute) and c.func.attr in ("add", "update", "append")}
+                        if used & mutated:
+                            return False
+    return True
+
+
+def r11e(repo, chk):
+    n = 0
+    for mn in COMPILE_PATH:
+        if not repo.has_mod(mn) or mn in ("intrinsics", "symbols"):
+            continue
+        m = repo.mod(mn)
+        for fn in m.funcs.values():
+            if isinstance(fn, ast.Lambda):
+                continue
+            loops = [lp for lp in ast.walk(fn) if isinstance(lp, ast.For) and enclosing_def(lp) is fn]
+            if not loops:
+                continue
+            cfg = CFG(fn)
+            rd = ReachingDefs(cfg)
+            for lp in loops:
+                ids = [x.id for x in cfg.nodes_of(lp.iter) if x.id in cfg.reachable()]
+                if not ids:
+                    continue
+                it = lp.iter
+                if isinstance(it, ast.Call) and norm(it.func) in ("sorted", "enumerate", "reversed", "list", "tuple") and it.args:
+                    if norm(it.func) == "sorted":
+                        continue
+                    it = it.args[0]
+                if not _set_typed(it, rd, ids[0]):
+                    continue
+                n += 1
+                chk.saw(mn, fn.qual)
+                ok = _order_insensitive(lp)
+                chk.judge("R11.e", f"{mn}:{fn.qual}:for {norm(lp.target)} in {norm(lp.iter)[:50]}", ok,
+                          f"the loop iterates the set {norm(lp.iter)} in hash order and its body depends on that order (it appends, breaks out at the first "
+                          f"match or chains state from one element to the next): the order of a set of strings changes with the process's hash seed, so the "
+                          f"compilation result differs between processes; iterate sorted(...) instead", None, f"{m.path}:{lp.lineno} in {fn.qual}")
+    if n < 2:
+        raise AnalysisError(f"R11.e: only {n} loops over sets found on the compile path")
